@@ -1,23 +1,445 @@
-(** C07 proofs. *)
+(** C07 proofs, part 1: list facts, the selection functions, invariant, totality,
+    items (tagged interleaving). *)
 From TU Require Import Base C07_Model.
 Require Import Lia.
 
-(** * The unrepaired interleaved selection diverges on lengths [1;3] *)
-Lemma probe_pinned_stuck : forall g idx,
-  idx < 2 -> probe_pinned [true; false] 1 g idx = None.
+(** * set_nth *)
+Lemma set_nth_length : forall B i (x : B) l, length (set_nth i x l) = length l.
+Proof. induction i; destruct l; cbn; auto. Qed.
+
+Lemma nth_set_nth_eq : forall B i (x d : B) l, i < length l -> nth i (set_nth i x l) d = x.
+Proof. induction i; destruct l; cbn; intros; try lia; auto. apply IHi. lia. Qed.
+
+Lemma nth_set_nth_neq : forall B i j (x d : B) l, j <> i -> nth j (set_nth i x l) d = nth j l d.
 Proof.
-  induction g as [|g IH]; intros idx H; [reflexivity|].
-  destruct idx as [|[|idx]]; try lia; cbn [probe_pinned]; cbn; apply IH; lia.
+  induction i; destruct l; cbn; intros; auto.
+  - destruct j; [lia|reflexivity].
+  - destruct j; [reflexivity|]. apply IHi. lia.
 Qed.
 
-Lemma pinned_diverges_l : forall (A : Type) (a b c d : A) f g,
-  run_pinned f g [[a]; [b; c; d]] = Err OutOfFuel.
+Lemma nth_error_nth : forall B (l : list B) i x d, nth_error l i = Some x -> nth i l d = x.
+Proof. induction l; destruct i; cbn; intros; try discriminate; [congruence|eauto]. Qed.
+
+Lemma nth_error_lt : forall B (l : list B) i x, nth_error l i = Some x -> i < length l.
+Proof. intros. apply nth_error_Some. congruence. Qed.
+
+Lemma nth_error_of_nth : forall B (l : list B) i d, i < length l -> nth_error l i = Some (nth i l d).
+Proof. induction l; destruct i; cbn; intros; try lia; auto. apply IHl. lia. Qed.
+
+Lemma nth_error_set_nth_eq : forall B i (x : B) l, i < length l -> nth_error (set_nth i x l) i = Some x.
+Proof. induction i; destruct l; cbn; intros; try lia; auto. apply IHi. lia. Qed.
+
+Lemma nth_error_set_nth_neq : forall B i j (x : B) l, j <> i -> nth_error (set_nth i x l) j = nth_error l j.
 Proof.
-  intros A a b c d f g. unfold run_pinned.
-  destruct f as [|f]; [reflexivity|].
-  destruct g as [|g]; [reflexivity|]. destruct g as [|g]; [reflexivity|].
-  destruct f as [|f]; [reflexivity|].
-  destruct f as [|f]; [reflexivity|].
-  destruct f as [|f]; [reflexivity|].
-  cbn. rewrite (probe_pinned_stuck g 1) by lia. reflexivity.
+  induction i; destruct l; cbn; intros; auto.
+  - destruct j; [lia|reflexivity].
+  - destruct j; [reflexivity|]. cbn. apply IHi. lia.
 Qed.
+
+(** * finished flags *)
+Lemma all_fin_true : forall fin, all_fin fin = true <-> (forall j, nth j fin true = true).
+Proof.
+  unfold all_fin. induction fin as [|b fin IH]; cbn.
+  - split; auto. intros _ j. destruct j; reflexivity.
+  - rewrite andb_true_iff, IH. split.
+    + intros [Hb H] [|j]; auto.
+    + intros H. split; [apply (H 0)|intros j; apply (H (S j))].
+Qed.
+
+Lemma all_fin_false : forall fin, all_fin fin = false -> exists j, nth j fin true = false.
+Proof.
+  unfold all_fin. induction fin as [|b fin IH]; cbn; [discriminate|].
+  destruct b; cbn.
+  - intros H. destruct (IH H) as [j Hj]. exists (S j). exact Hj.
+  - intros _. exists 0. reflexivity.
+Qed.
+
+Lemma unf_lt : forall j (fin : list bool), nth j fin true = false -> j < length fin.
+Proof.
+  intros j fin H. destruct (Nat.lt_ge_cases j (length fin)) as [|Hge]; auto.
+  rewrite nth_overflow in H by lia. discriminate.
+Qed.
+
+Lemma not_all_fin : forall fin j, nth j fin true = false -> all_fin fin = false.
+Proof.
+  intros fin j H. destruct (all_fin fin) eqn:E; auto.
+  rewrite all_fin_true in E. rewrite E in H. discriminate.
+Qed.
+
+Lemma in_unfinished : forall fin j, In j (unfinished fin) <-> nth j fin true = false.
+Proof.
+  intros. unfold unfinished. rewrite filter_In, in_seq, negb_true_iff. split.
+  - tauto.
+  - intros H. split; auto. pose proof (unf_lt _ _ H). lia.
+Qed.
+
+(** number of unfinished sources *)
+Definition cf (fin : list bool) : nat := length (filter negb fin).
+
+Lemma cf_set : forall i fin, nth i fin true = false -> cf (set_nth i true fin) + 1 = cf fin.
+Proof.
+  unfold cf. induction i; destruct fin as [|b fin]; cbn; intros H; try discriminate.
+  - subst b. cbn. lia.
+  - destruct b; cbn; rewrite <- (IHi fin H); lia.
+Qed.
+
+Lemma cf_repeat : forall n, cf (repeat false n) = n.
+Proof. unfold cf. induction n; cbn; auto. Qed.
+
+(** * probe: the repaired interleaved selection *)
+Lemma probe_some : forall fin f s j, s < length fin -> probe fin f s = Some j ->
+  exists k, k < f /\ j = (s + k) mod length fin /\ nth j fin true = false /\
+    (forall k', k' < k -> nth ((s + k') mod length fin) fin true = true).
+Proof.
+  intros fin. induction f as [|f IH]; intros s j Hs H; cbn in H; [discriminate|].
+  destruct (nth s fin true) eqn:E.
+  - assert (Hn : length fin <> 0) by lia.
+    destruct (IH _ _ (Nat.mod_upper_bound _ _ Hn) H) as (k & Hk & Hj & Hf & Hbefore).
+    exists (S k). split; [lia|]. split; [|split; [exact Hf|]].
+    + rewrite Hj. rewrite Nat.add_mod_idemp_l by exact Hn. f_equal. lia.
+    + intros k' Hk'. destruct k' as [|k'].
+      * rewrite Nat.add_0_r, Nat.mod_small by exact Hs. exact E.
+      * specialize (Hbefore k' ltac:(lia)).
+        rewrite Nat.add_mod_idemp_l in Hbefore by exact Hn.
+        replace (s + S k') with (S s + k') by lia. exact Hbefore.
+  - injection H as <-. exists 0. split; [lia|]. split; [|split; [exact E|intros; lia]].
+    rewrite Nat.add_0_r, Nat.mod_small by exact Hs. reflexivity.
+Qed.
+
+Lemma probe_none : forall fin f s, s < length fin -> probe fin f s = None ->
+  forall k, k < f -> nth ((s + k) mod length fin) fin true = true.
+Proof.
+  intros fin. induction f as [|f IH]; intros s Hs H k Hk; [lia|]. cbn in H.
+  assert (Hn : length fin <> 0) by lia.
+  destruct (nth s fin true) eqn:E; [|discriminate].
+  destruct k as [|k].
+  - rewrite Nat.add_0_r, Nat.mod_small by exact Hs. exact E.
+  - specialize (IH _ (Nat.mod_upper_bound _ _ Hn) H k ltac:(lia)).
+    rewrite Nat.add_mod_idemp_l in IH by exact Hn.
+    replace (s + S k) with (S s + k) by lia. exact IH.
+Qed.
+
+(** every residue is reached within n probes *)
+Lemma probe_total : forall fin s j, s < length fin -> nth j fin true = false ->
+  exists i, probe fin (length fin) s = Some i.
+Proof.
+  intros fin s j Hs Hj. destruct (probe fin (length fin) s) eqn:E; [eauto|exfalso].
+  pose proof (unf_lt _ _ Hj) as Hlt.
+  pose proof (probe_none _ _ _ Hs E) as H.
+  destruct (Nat.le_gt_cases s j) as [Hle|Hgt].
+  - specialize (H (j - s) ltac:(lia)). replace (s + (j - s)) with j in H by lia.
+    rewrite Nat.mod_small in H by exact Hlt. congruence.
+  - specialize (H (j + length fin - s) ltac:(lia)).
+    replace (s + (j + length fin - s)) with (j + 1 * length fin) in H by lia.
+    rewrite Nat.mod_add, Nat.mod_small in H by lia. congruence.
+Qed.
+
+(** the shape of the result: forward without wrapping (A) or wrapped (B) *)
+Lemma probe_shape : forall fin i i', i < length fin ->
+  probe fin (length fin) (S i mod length fin) = Some i' ->
+  nth i' fin true = false /\
+  ((i < i' /\ forall j, i < j < i' -> nth j fin true = true) \/
+   (i' <= i /\ (forall j, i < j -> nth j fin true = true) /\ (forall j, j < i' -> nth j fin true = true))).
+Proof.
+  intros fin i i' Hi H. set (n := length fin) in *.
+  assert (Hn : n <> 0) by lia.
+  destruct (probe_some _ _ _ _ (Nat.mod_upper_bound _ _ Hn) H) as (k & Hk & Hj & Hf & Hb).
+  fold n in Hj, Hb. split; [exact Hf|].
+  rewrite Nat.add_mod_idemp_l in Hj by exact Hn.
+  assert (Hb' : forall k', k' < k -> nth ((S i + k') mod n) fin true = true).
+  { intros k' Hk'. specialize (Hb k' Hk'). rewrite Nat.add_mod_idemp_l in Hb by exact Hn. exact Hb. }
+  clear Hb. destruct (Nat.lt_ge_cases (S i + k) n) as [Hlt|Hge].
+  - left. rewrite Nat.mod_small in Hj by exact Hlt. split; [lia|].
+    intros j Hjr. specialize (Hb' (j - S i) ltac:(lia)).
+    replace (S i + (j - S i)) with j in Hb' by lia. rewrite Nat.mod_small in Hb' by lia. exact Hb'.
+  - right. assert (Hi' : i' = S i + k - n).
+    { rewrite Hj. replace (S i + k) with ((S i + k - n) + 1 * n) by lia.
+      rewrite Nat.mod_add, Nat.mod_small by lia. lia. }
+    split; [lia|]. split.
+    + intros j Hjr. destruct (Nat.lt_ge_cases j n) as [Hjn|Hjn]; [|apply nth_overflow; fold n; lia].
+      specialize (Hb' (j - S i) ltac:(lia)).
+      replace (S i + (j - S i)) with j in Hb' by lia. rewrite Nat.mod_small in Hb' by lia. exact Hb'.
+    + intros j Hjr. specialize (Hb' (j + n - S i) ltac:(lia)).
+      replace (S i + (j + n - S i)) with (j + 1 * n) in Hb' by lia.
+      rewrite Nat.mod_add, Nat.mod_small in Hb' by lia. exact Hb'.
+Qed.
+
+(** * next_idx *)
+(** Seq-specific shape of the flags: everything before [idx] finished, everything
+    after unfinished ([idx] itself may be either, it is decided by the caller). *)
+Definition SeqShape (idx : nat) (fin : list bool) : Prop :=
+  forall j, j < length fin -> j <> idx -> nth j fin true = (j <? idx).
+
+Lemma next_idx_ok : forall s o clk fin idx idx' clk',
+  (s = Sequential -> SeqShape idx fin) ->
+  next_idx s o clk fin idx = inr (idx', clk') ->
+  nth idx' fin true = false /\ (s = Sequential -> SeqShape idx' fin).
+Proof.
+  intros s o clk fin idx idx' clk' Hseq H. unfold next_idx in H.
+  destruct (all_fin fin) eqn:Eall; [discriminate|].
+  destruct (idx <? length fin) eqn:Elt; [|discriminate]. cbn [negb] in H.
+  apply Nat.ltb_lt in Elt.
+  destruct s.
+  - specialize (Hseq eq_refl). injection H as <- <-.
+    destruct (nth idx fin true) eqn:E.
+    + (* idx finished: all j <= idx finished, someone is not, so S idx < n *)
+      destruct (all_fin_false _ Eall) as [j Hj].
+      pose proof (unf_lt _ _ Hj) as Hjl.
+      assert (Hji : idx < j).
+      { destruct (Nat.eq_dec j idx) as [->|Hne]; [congruence|].
+        rewrite (Hseq j Hjl Hne) in Hj. apply Nat.ltb_ge in Hj. lia. }
+      rewrite Nat.mod_small by lia. split.
+      * destruct (Nat.eq_dec (S idx) j) as [->|Hne]; [exact Hj|].
+        rewrite (Hseq (S idx)) by lia. apply Nat.ltb_ge. lia.
+      * intros _ j' Hj' Hne'. destruct (Nat.eq_dec j' idx) as [->|Hne2].
+        -- rewrite E. symmetry. apply Nat.ltb_lt. lia.
+        -- rewrite (Hseq j' Hj' Hne2).
+           destruct (j' <? idx) eqn:E1, (j' <? S idx) eqn:E2; auto;
+             [apply Nat.ltb_lt in E1; apply Nat.ltb_ge in E2|apply Nat.ltb_ge in E1; apply Nat.ltb_lt in E2]; lia.
+    + split; [exact E|intros _; exact Hseq].
+  - destruct (probe fin (length fin) (S idx mod length fin)) eqn:Ep; [|discriminate].
+    injection H as <- <-. split; [|discriminate].
+    apply (probe_shape _ _ _ Elt Ep).
+  - destruct (nth_error (unfinished fin) (o clk (length (unfinished fin)))) eqn:En; [|discriminate].
+    injection H as <- <-. split; [|discriminate].
+    apply in_unfinished. eapply nth_error_In. exact En.
+Qed.
+
+Lemma next_idx_err : forall s o clk fin idx e,
+  idx < length fin -> all_fin fin = false ->
+  next_idx s o clk fin idx = inl e ->
+  e = BadOracle /\ s = Weighted /\ ~ (o clk (length (unfinished fin)) < length (unfinished fin)).
+Proof.
+  intros s o clk fin idx e Hidx Hall H. unfold next_idx in H. rewrite Hall in H.
+  apply Nat.ltb_lt in Hidx. rewrite Hidx in H. cbn [negb] in H. apply Nat.ltb_lt in Hidx.
+  destruct s; [discriminate| |].
+  - destruct (all_fin_false _ Hall) as [j Hj].
+    assert (Hn : length fin <> 0) by lia.
+    destruct (probe_total fin (S idx mod length fin) j (Nat.mod_upper_bound _ _ Hn) Hj) as [i Hi].
+    rewrite Hi in H. discriminate.
+  - destruct (nth_error (unfinished fin) (o clk (length (unfinished fin)))) eqn:En; [discriminate|].
+    injection H as <-. split; [reflexivity|]. split; [reflexivity|].
+    apply nth_error_None in En. lia.
+Qed.
+
+Lemma unfinished_pos : forall fin, all_fin fin = false -> 0 < length (unfinished fin).
+Proof.
+  intros fin H. destruct (all_fin_false _ H) as [j Hj]. apply in_unfinished in Hj.
+  destruct (unfinished fin); [destruct Hj|cbn; lia].
+Qed.
+
+(** * Invariant of the drain loop *)
+Section Run.
+Context {A : Type}.
+Implicit Types (srcs : list (list A)) (fin : list bool).
+
+Record Inv (s : strategy) srcs (idx : nat) fin : Prop := {
+  inv_len : length fin = length srcs;
+  inv_idx : nth idx fin true = false;
+  inv_fin : forall j, nth j fin true = true -> nth j srcs [] = [];
+  inv_seq : s = Sequential -> SeqShape idx fin }.
+
+Lemma total_len_set : forall srcs i x xs, nth_error srcs i = Some (x :: xs) ->
+  total_len (set_nth i xs srcs) + 1 = total_len srcs.
+Proof.
+  unfold total_len, sum_nat. induction srcs as [|a srcs IH]; destruct i; cbn; intros x xs H; try discriminate.
+  - injection H as ->. cbn. lia.
+  - rewrite <- (IH _ _ _ H). lia.
+Qed.
+
+Lemma inv_item : forall s srcs idx fin x xs idx',
+  Inv s srcs idx fin -> nth_error srcs idx = Some (x :: xs) ->
+  nth idx' fin true = false -> (s = Sequential -> SeqShape idx' fin) ->
+  Inv s (set_nth idx xs srcs) idx' fin.
+Proof.
+  intros s srcs idx fin x xs idx' [Hl Hi Hf Hs] Hn Hi' Hs'. split; auto.
+  - rewrite set_nth_length. exact Hl.
+  - intros j Hj. destruct (Nat.eq_dec j idx) as [->|Hne]; [congruence|].
+    rewrite nth_set_nth_neq by exact Hne. auto.
+Qed.
+
+Lemma inv_none_fin : forall s srcs idx fin,
+  Inv s srcs idx fin -> nth_error srcs idx = Some [] ->
+  forall j, nth j (set_nth idx true fin) true = true -> nth j srcs [] = [].
+Proof.
+  intros s srcs idx fin [Hl Hi Hf Hs] Hn j Hj.
+  destruct (Nat.eq_dec j idx) as [->|Hne].
+  - eapply nth_error_nth. exact Hn.
+  - rewrite nth_set_nth_neq in Hj by exact Hne. auto.
+Qed.
+
+Lemma seqshape_set : forall idx fin, SeqShape idx fin -> SeqShape idx (set_nth idx true fin).
+Proof.
+  intros idx fin H j Hj Hne. rewrite set_nth_length in Hj.
+  rewrite nth_set_nth_neq by exact Hne. auto.
+Qed.
+
+Lemma inv_none : forall s srcs idx fin idx',
+  Inv s srcs idx fin -> nth_error srcs idx = Some [] ->
+  nth idx' (set_nth idx true fin) true = false ->
+  (s = Sequential -> SeqShape idx' (set_nth idx true fin)) ->
+  Inv s srcs idx' (set_nth idx true fin).
+Proof.
+  intros s srcs idx fin idx' HI Hn Hi' Hs'. split; auto.
+  - rewrite set_nth_length. apply HI.
+  - eapply inv_none_fin; eauto.
+Qed.
+
+Lemma inv_init : forall s srcs, srcs <> [] -> Inv s srcs 0 (repeat false (length srcs)).
+Proof.
+  intros s srcs Hne. assert (0 < length srcs) by (destruct srcs; [congruence|cbn; lia]).
+  split.
+  - apply repeat_length.
+  - destruct (length srcs); [lia|reflexivity].
+  - intros j Hj. destruct (Nat.lt_ge_cases j (length srcs)) as [Hlt|Hge].
+    + rewrite (nth_indep _ true false) in Hj by (rewrite repeat_length; exact Hlt).
+      rewrite nth_repeat in Hj. discriminate.
+    + apply nth_overflow. exact Hge.
+  - intros _ j Hj Hne'. rewrite repeat_length in Hj.
+    rewrite (nth_indep _ true false) by (rewrite repeat_length; exact Hj).
+    rewrite nth_repeat. symmetry. apply Nat.ltb_ge. lia.
+Qed.
+
+(** * Totality: the fuel suffices; errors other than an out-of-range oracle never occur *)
+Definition good (r : res A) : Prop :=
+  match r with Ok _ => True | Err BadOracle => True | Err _ => False end.
+Definition is_ok (r : res A) : Prop := exists out, r = Ok out.
+
+Lemma good_cons : forall p r, good r -> good (cons_res p r).
+Proof. intros p [out|e]; cbn; auto. Qed.
+Lemma is_ok_cons : forall p r, is_ok r -> is_ok (cons_res p r).
+Proof. intros p r [out ->]. eexists. reflexivity. Qed.
+
+Lemma run_total : forall s o f srcs idx fin clk,
+  Inv s srcs idx fin -> total_len srcs + cf fin < f ->
+  good (run_loop (next_idx s o) f srcs idx fin clk) /\
+  (oracle_guard o \/ s <> Weighted -> is_ok (run_loop (next_idx s o) f srcs idx fin clk)).
+Proof.
+  intros s o. induction f as [|f IH]; intros srcs idx fin clk HI Hm; [lia|].
+  cbn [run_loop].
+  pose proof (unf_lt _ _ (inv_idx _ _ _ _ HI)) as Hidx.
+  assert (Hidx' : idx < length srcs) by (rewrite <- (inv_len _ _ _ _ HI); exact Hidx).
+  rewrite (nth_error_of_nth _ srcs idx [] Hidx').
+  destruct (nth idx srcs []) as [|x xs] eqn:Esrc.
+  - (* exhausted *)
+    assert (Hn : nth_error srcs idx = Some []) by (rewrite (nth_error_of_nth _ srcs idx [] Hidx'), Esrc; reflexivity).
+    destruct (all_fin (set_nth idx true fin)) eqn:Eall.
+    + split; [exact Logic.I|intros _; eexists; reflexivity].
+    + destruct (next_idx s o clk (set_nth idx true fin) idx) as [e|[idx' clk']] eqn:En.
+      * apply next_idx_err in En; [|rewrite set_nth_length; exact Hidx|exact Eall].
+        destruct En as (-> & -> & Hbad). split; [exact Logic.I|].
+        intros [Hg|Hg]; [|congruence]. exfalso. apply Hbad, Hg, unfinished_pos, Eall.
+      * apply next_idx_ok in En.
+        2:{ intros Hs. apply seqshape_set. apply (inv_seq _ _ _ _ HI Hs). }
+        destruct En as [Hi' Hs'].
+        apply IH; [apply inv_none; auto|].
+        pose proof (cf_set idx fin (inv_idx _ _ _ _ HI)). lia.
+  - assert (Hn : nth_error srcs idx = Some (x :: xs)) by (rewrite (nth_error_of_nth _ srcs idx [] Hidx'), Esrc; reflexivity).
+    pose proof (not_all_fin _ _ (inv_idx _ _ _ _ HI)) as Eall.
+    destruct (next_idx s o clk fin idx) as [e|[idx' clk']] eqn:En.
+    + apply next_idx_err in En; [|exact Hidx|exact Eall].
+      destruct En as (-> & -> & Hbad). split; [exact Logic.I|].
+      intros [Hg|Hg]; [|congruence]. exfalso. apply Hbad, Hg, unfinished_pos, Eall.
+    + apply next_idx_ok in En; [|apply (inv_seq _ _ _ _ HI)].
+      destruct En as [Hi' Hs'].
+      pose proof (total_len_set _ _ _ _ Hn) as Hlen.
+      destruct (IH (set_nth idx xs srcs) idx' fin clk') as [Hg Ho].
+      * eapply inv_item; eauto.
+      * lia.
+      * split; [apply good_cons, Hg|intros Hgd; apply is_ok_cons, Ho, Hgd].
+Qed.
+
+(** * Items: the output is a tagged interleaving of the sources *)
+Inductive TI : list (list A) -> list (nat * A) -> Prop :=
+| TI_nil : forall srcs, (forall j, nth j srcs [] = []) -> TI srcs []
+| TI_cons : forall srcs j x xs out,
+    nth_error srcs j = Some (x :: xs) -> TI (set_nth j xs srcs) out -> TI srcs ((j, x) :: out).
+
+Lemma cons_res_ok : forall p (r : res A) out, cons_res p r = Ok out -> exists out', r = Ok out' /\ out = p :: out'.
+Proof. intros p [o|e] out H; cbn in H; [injection H as <-; eauto|discriminate]. Qed.
+
+Lemma run_ti : forall s o f srcs idx fin clk out,
+  Inv s srcs idx fin ->
+  run_loop (next_idx s o) f srcs idx fin clk = Ok out -> TI srcs out.
+Proof.
+  intros s o. induction f as [|f IH]; intros srcs idx fin clk out HI H; [discriminate|].
+  cbn [run_loop] in H.
+  destruct (nth_error srcs idx) as [[|x xs]|] eqn:Hn; [| |discriminate].
+  - destruct (all_fin (set_nth idx true fin)) eqn:Eall.
+    + injection H as <-. constructor. intros j.
+      eapply inv_none_fin; eauto. rewrite all_fin_true in Eall. apply Eall.
+    + destruct (next_idx s o clk (set_nth idx true fin) idx) as [e|[idx' clk']] eqn:En; [discriminate|].
+      apply next_idx_ok in En.
+      2:{ intros Hs. apply seqshape_set. apply (inv_seq _ _ _ _ HI Hs). }
+      destruct En as [Hi' Hs'].
+      eapply IH; [|exact H]. apply inv_none; auto.
+  - destruct (next_idx s o clk fin idx) as [e|[idx' clk']] eqn:En; [discriminate|].
+    apply next_idx_ok in En; [|apply (inv_seq _ _ _ _ HI)].
+    destruct En as [Hi' Hs'].
+    apply cons_res_ok in H. destruct H as (out' & H & ->).
+    econstructor; [exact Hn|]. eapply IH; [|exact H]. eapply inv_item; eauto.
+Qed.
+
+(** what a tagged interleaving means *)
+Lemma proj_cons : forall j j' (x : A) out,
+  proj j' ((j, x) :: out) = if Nat.eqb j j' then x :: proj j' out else proj j' out.
+Proof. intros. unfold proj. cbn. destruct (Nat.eqb j j'); reflexivity. Qed.
+
+Lemma TI_spec : forall srcs out, TI srcs out ->
+  (forall j, proj j out = nth j srcs []) /\ length out = total_len srcs /\
+  Forall (fun p => fst p < length srcs) out.
+Proof.
+  induction 1 as [srcs Hnil|srcs j x xs out Hn HT (IHp & IHl & IHf)].
+  - split; [intros j; rewrite Hnil; reflexivity|]. split; [|constructor].
+    cbn. unfold total_len, sum_nat. clear -Hnil. induction srcs as [|a srcs IH]; cbn; auto.
+    rewrite <- IH; [|intros j; apply (Hnil (S j))]. specialize (Hnil 0). cbn in Hnil. subst a. reflexivity.
+  - pose proof (nth_error_lt _ _ _ _ Hn) as Hj. split; [|split].
+    + intros j'. rewrite proj_cons. destruct (Nat.eqb j j') eqn:E.
+      * apply Nat.eqb_eq in E. subst j'. rewrite IHp, nth_set_nth_eq by exact Hj.
+        symmetry. eapply nth_error_nth. exact Hn.
+      * apply Nat.eqb_neq in E. rewrite IHp. apply nth_set_nth_neq. congruence.
+    + cbn. rewrite IHl. pose proof (total_len_set _ _ _ _ Hn). lia.
+    + constructor; [exact Hj|]. rewrite set_nth_length in IHf. exact IHf.
+Qed.
+
+Lemma spec_TI : forall out srcs,
+  (forall j, proj j out = nth j srcs []) -> Forall (fun p => fst p < length srcs) out -> TI srcs out.
+Proof.
+  induction out as [|[j x] out IH]; intros srcs Hp Hf.
+  - constructor. intros j. rewrite <- Hp. reflexivity.
+  - inversion Hf as [|? ? Hj Hf']; subst. cbn in Hj.
+    pose proof (Hp j) as Hpj. rewrite proj_cons, Nat.eqb_refl in Hpj.
+    econstructor.
+    + rewrite (nth_error_of_nth _ srcs j [] Hj), <- Hpj. reflexivity.
+    + apply IH.
+      * intros j'. destruct (Nat.eq_dec j' j) as [->|Hne].
+        -- rewrite nth_set_nth_eq by exact Hj. reflexivity.
+        -- rewrite nth_set_nth_neq by exact Hne. rewrite <- Hp, proj_cons.
+           destruct (Nat.eqb j j') eqn:E; [apply Nat.eqb_eq in E; congruence|reflexivity].
+      * rewrite set_nth_length. exact Hf'.
+Qed.
+
+(** the executable form *)
+Context (eqb : A -> A -> bool) (eqb_eq : forall x y, eqb x y = true <-> x = y).
+
+Lemma forallb_is_nil : forall srcs, forallb is_nil srcs = true <-> (forall j, nth j srcs [] = []).
+Proof.
+  induction srcs as [|a srcs IH]; cbn.
+  - split; auto. intros _ j. destruct j; reflexivity.
+  - rewrite andb_true_iff, IH. split.
+    + intros [Ha H] [|j]; [destruct a; [reflexivity|discriminate]|apply H].
+    + intros H. split; [rewrite (H 0); reflexivity|intros j; apply (H (S j))].
+Qed.
+
+Lemma is_ti_TI : forall out srcs, is_ti eqb srcs out = true <-> TI srcs out.
+Proof.
+  induction out as [|[j x] out IH]; intros srcs; cbn [is_ti].
+  - rewrite forallb_is_nil. split; [intros H; constructor; exact H|intros H; inversion H; auto].
+  - split.
+    + destruct (nth_error srcs j) as [[|y ys]|] eqn:Hn; try discriminate.
+      rewrite andb_true_iff, eqb_eq, IH. intros [-> HT]. econstructor; eauto.
+    + intros H. inversion H as [|? ? ? xs ? Hn HT]; subst. rewrite Hn.
+      rewrite andb_true_iff, IH. split; [apply eqb_eq; reflexivity|exact HT].
+Qed.
+
+End Run.
